@@ -518,6 +518,10 @@ def extent_accumulation(prog, chk):
             tests = {a for a in tests if all(b.dominates(bodies[0], a) for _ in [0])}
             exits = {x for y in blocks for x in b.succs(y) if x not in blocks and _normal_exit(b, x)}
             starts = [b.term(bodies[0])["t"]] if b.term(bodies[0]).get("t") is not None else []
+            if not tests:
+                # extend() is not under a `did this pass produce a box` test (it takes the Option itself): then the call
+                # is what every rendered pass has to go through
+                tests = {eb for (eb, et, ec) in ext}
             skipped = bool(tests) and bool(b.reach(starts, avoid=tests) & (exits | {h}))
             chk.ob(bool(tests) and not skipped, "A16.extent-accumulation", what + ":every-pass", b.where(h), f"{what}: every pass whose body was rendered contributes its box before the loop continues or ends", f"{what}: a pass can end (or the loop can be left) after rendering its body without adding the body's box to the accumulated extent - e.g. the last pass of an `until` loop is drawn but not counted in the root extent")
         chk.ob(ok, "A16.extent-accumulation", what, b.where(), f"{what} unions the boxes of all passes with BoundingBoxBuilder (extend in the loop, build at the end)", f"{what} no longer accumulates its extent with BoundingBoxBuilder::extend/build like the other repeating elements: a pass that renders nothing, or the first pass, can drop the accumulated extent")
